@@ -250,7 +250,9 @@ def _reference_attr_sites():
                     while isinstance(t_, ast.Subscript):
                         t_ = t_.value
                     if isinstance(t_, ast.Attribute):
-                        out.add((q2, unparse(t_)))
+                        # keyed by the owner (class, or module for plain functions): the site may move between the methods /
+                        # nested helpers of one class without becoming another kind of write
+                        out.add((f2.cls.qual if f2.cls is not None else f2.module.name, unparse(t_)))
         _REF_ATTR_SITES = out
     return _REF_ATTR_SITES
 
@@ -280,7 +282,8 @@ def r7_2(prog, rep, pp):
                             fresh_base = bool(fr.of_name(base.id, fr.cfg.node_of(node))[0]) if root is f.node else False
                         except Exception:  # noqa: BLE001
                             fresh_base = False
-                    if ref_sites and (f.qual, ttxt) not in ref_sites and f.name not in ("__init__",) and not f.is_setter and not fresh_base \
+                    owner_ = f.cls.qual if f.cls is not None else f.module.name
+                    if ref_sites and (owner_, ttxt) not in ref_sites and f.name not in ("__init__",) and not f.is_setter and not fresh_base \
                             and kind != "attribute store":
                         n += 1
                         rep.bad("R7.2", f.loc(node), f.qual, f"`{short(node, 70)}` ({kind} on `{ttxt}`)",
